@@ -9,6 +9,7 @@ Regenerates lean/AndaVerif/Gen/KipGuardTables.lean from the KIP parser sources:
                                      the selector names of `upsert_has_stable_identity_selector`
   rs/anda_kip/src/parser.rs          the step order of `parse_kip` / `parse_kml` (budget, grammar, validator, return) and
                                      the validator each arm of `validate_command` calls
+  rs/anda_kip/src/request.rs         `Operation::parse`: text goes to `parse_kip`, a pre-parsed `ast` to `validate_command` first
   rs/anda_kip/src/ast.rs             the `MutationClause` variant list (variant, payload struct), per payload
                                      struct the mutation-relevant fields (name, block kind), the
                                      `UpdateAction` variant list, the arms of `MutationClause::handle`
@@ -243,6 +244,7 @@ def main():
         kml = strip_comments(open(os.path.join(base, "parser", "kml.rs")).read())
         ast = strip_comments(open(os.path.join(base, "ast.rs")).read())
         parser_rs = strip_comments(open(os.path.join(base, "parser.rs")).read())
+        request_rs = strip_comments(open(os.path.join(base, "request.rs")).read())
     except OSError as e:
         die(f"cannot read source: {e}")
 
@@ -363,6 +365,27 @@ def main():
         die("validate_command: ExportCapsule no longer refuses an empty selection before validating it")
     arms.append(("Meta::ExportCapsule", "nonempty+" + i2.group(1)))
 
+    # the request route: Operation::parse hands text to parse_kip and a pre-parsed `ast` to validate_command
+    # before it is cloned out
+    impl_op = re.search(r"impl\s+Operation\s*\{", request_rs)
+    if not impl_op:
+        die("request.rs: impl Operation not found")
+    op_body = request_rs[impl_op.end():matching(request_rs, impl_op.end() - 1, "{", "}")]
+    pb = fn_body(op_body, "parse", "impl Operation")
+    m_text = re.search(r"\(\s*Some\s*\(\s*(\w+)\s*\)\s*,\s*_\s*\)\s*=>\s*parse_kip\s*\(\s*(\w+)\s*\)\s*\?", pb)
+    if not m_text or m_text.group(1) != m_text.group(2):
+        die("Operation::parse: the `command` arm no longer is `parse_kip(text)?`")
+    m_ast = re.search(r"\(\s*None\s*,\s*Some\s*\(\s*(\w+)\s*\)\s*\)\s*=>\s*\{", pb)
+    if not m_ast:
+        die("Operation::parse: the `ast` arm is gone")
+    ab = pb[m_ast.end() - 1:matching(pb, m_ast.end() - 1, "{", "}")]
+    av = m_ast.group(1)
+    v = list(re.finditer(r"\bvalidate_command\s*\(\s*" + re.escape(av) + r"\s*\)\s*\?", ab))
+    c = list(re.finditer(r"\b" + re.escape(av) + r"\s*\.\s*clone\s*\(\s*\)", ab))
+    if len(v) != 1 or len(c) != 1:
+        die("Operation::parse: the `ast` arm no longer has exactly one `validate_command(ast)?` and one `ast.clone()`")
+    ast_order = [n for _, n in sorted([(v[0].start(), "validate_command"), (c[0].start(), "return")])]
+
     L = []
     L.append("/-")
     L.append("GENERATED by bin/translate/c16_kip_guard_tables.py from rs/anda_kip/src/{parser/common.rs,parser/kml.rs,ast.rs}.")
@@ -402,6 +425,7 @@ def main():
     L.append("")
     table("parseKipOrder", kip_order, "`parse_kip` (parser.rs): order of the budget scan, the grammar, `validate_command(&command)?` and the final `Ok(command)`")
     table("parseKmlOrder", kml_order, "`parse_kml` (parser.rs): the same with `kml::validate_plan(&statement)?`")
+    table("operationAstOrder", ast_order, "`Operation::parse` (request.rs), arm of a pre-parsed `ast`: `validate_command(ast)?` and the `ast.clone()` that leaves; the `command` arm is `parse_kip(text)?`")
     L.append("/-- `validate_command`: the validator each arm hands the tree to -/")
     L.append("def validateCommandArms : List (String × String) := [" + ", ".join(f"({lean_str(a)}, {lean_str(b)})" for a, b in arms) + "]")
     L.append("")
